@@ -211,7 +211,7 @@ pub fn arb_prov() -> impl Strategy<Value = Prov> {
 /// Zoo type index; the two unbounded types are drawn three times as often as each fixed shape.
 pub fn arb_tid() -> impl Strategy<Value = Tid> {
     prop_oneof![
-        16 => 0..NFIXED,
+        17 => (0usize..17).prop_map(|i| FIXED_TIDS[i]),
         3 => Just(TID_D),
         3 => Just(TID_A),
     ]
